@@ -260,6 +260,13 @@ package vm
 //@   loop 0 step[isa_dcont_rcont;C01,C02,C09] (iter(bcop((*cs)[ip])) == bytecode.RCONT ==> tmp == iter(tmp) && ip == iter(ip) + 1 && ctxp == iter(ctxp) && m == iter(m))
 //@        && (iter(bcop((*cs)[ip])) == bytecode.DCONT ==> tmp == iter(tmp) && ip == iter(ip) + 1
 //@             && (iter(ctxp.parent) == nil ==> ctxp == iter(ctxp) && m == iter(m)) && (iter(ctxp.parent) != nil ==> ctxp == iter(ctxp.parent) && m == iter(ctxp.parent.m)))
+// FUNC "pushes a function value sourced from src0 while setting the closure frame in it to current top": inside a
+// call the pushed function captures exactly the active frame (the slots of the defining call), C04's lexical scoping.
+//@   loop 0 step[isa_func;C01,C04] iter(bcop((*cs)[ip])) == bytecode.FUNC && iter(len(field[[]int](m, "fp"))) >= 2 ==>
+//@        snd2(mStack(m, mSP(m)-1).ToFunction()) == iter(snd2(opnd0(cs, ds, m, ip).ToFunction()))
+//@        && arr(*fst2(mStack(m, mSP(m)-1).ToFunction()).Frame) == iter(arr(field[[]value.Type](m, "stack")))
+//@        && off(*fst2(mStack(m, mSP(m)-1).ToFunction()).Frame) == iter(off(field[[]value.Type](m, "stack")) + mTopFP(m))
+//@        && len(*fst2(mStack(m, mSP(m)-1).ToFunction()).Frame) == iter(mTopLE(m) - mTopFP(m))
 //@   loop 0 step[isa_stack;C01,C09,C12] (iter(bcop((*cs)[ip])) == bytecode.PUSH ==> ip == iter(ip) + 1 && m == iter(m) && tmp == iter(tmp)
 //@             && mSP(m) == iter(mSP(m)) - iter(stackOps1((*cs)[ip])) + 1 && mStack(m, mSP(m)-1) == iter(opnd0(cs, ds, m, ip)))
 //@        && (iter(bcop((*cs)[ip])) == bytecode.PUSHTMP ==> ip == iter(ip) + 1 && m == iter(m) && tmp == iter(tmp) && mSP(m) == iter(mSP(m)) + 1 && mStack(m, mSP(m)-1) == iter(tmp))
